@@ -154,47 +154,163 @@ def r112(ctx, rep):
                 rep.violated('R11.2', fn, 'default %s' % p,
                              'default of `%s` is %s, expected %r: omitting the argument no longer selects the '
                              'documented global default' % (p, norm(d), want), fn.node)
-    # config.sort_buffersize is consulted in exactly one place
+    _buffersize_resolution(ctx, rep)
+    ctx.floor('default_sites', n, 150)
+
+
+# ------------------------------------------------------- R11.2: None -> config
+def _is_none_test(t):
+    """`X is None` -> (X, True); `X is not None` -> (X, False)"""
+    if isinstance(t, ast.Compare) and len(t.ops) == 1 and isinstance(t.comparators[0], ast.Constant) \
+            and t.comparators[0].value is None:
+        if isinstance(t.ops[0], ast.Is):
+            return t.left, True
+        if isinstance(t.ops[0], ast.IsNot):
+            return t.left, False
+    return None
+
+
+def _resolution_idiom(pm, node):
+    """config.sort_buffersize used only to replace a None: `if X is None: X = config...` / `... if X is None else X`"""
+    from ..absint import enclosing
+    for p, c in enclosing(pm, node):
+        if isinstance(p, ast.Assign) and p.value is node and len(p.targets) == 1:
+            tgt = norm(p.targets[0])
+            for q, d in enclosing(pm, p):
+                if isinstance(q, ast.If):
+                    t = _is_none_test(q.test)
+                    return bool(t and t[1] and any(d is b for b in q.body) and
+                                norm(t[0]) in (tgt, tgt.replace('self.', '')))
+                if isinstance(q, ast.stmt):
+                    return False
+        if isinstance(p, ast.IfExp):
+            t = _is_none_test(p.test)
+            if t and ((t[1] and p.body is node and norm(p.orelse) == norm(t[0])) or
+                      (not t[1] and p.orelse is node and norm(p.body) == norm(t[0]))):
+                return True
+            return False
+        if isinstance(p, ast.stmt):
+            return False
+    return False
+
+
+class _Sym(Exception):
+    pass
+
+
+def _sym_eval(e, env):
+    n = norm(e)
+    if n in env:
+        return env[n]
+    if n.endswith('config.sort_buffersize') or n == 'sort_buffersize':
+        return 'CONFIG'
+    if isinstance(e, ast.Constant) and e.value is None:
+        return 'NONE'
+    if isinstance(e, ast.IfExp):
+        return _sym_eval(e.body if _sym_test(e.test, env) else e.orelse, env)
+    raise _Sym('cannot evaluate `%s`' % n)
+
+
+def _sym_test(t, env):
+    nt = _is_none_test(t)
+    if nt is None:
+        if isinstance(t, ast.UnaryOp) and isinstance(t.op, ast.Not):
+            return not _sym_test(t.operand, env)
+        raise _Sym('test `%s` is not a None test' % norm(t))
+    v = _sym_eval(nt[0], env)
+    return (v == 'NONE') == nt[1]
+
+
+def _sym_exec(stmts, env, names):
+    """Execute the assignments to `names` (and the None-ladders around them)."""
+    for s in stmts:
+        if isinstance(s, ast.Assign) and len(s.targets) == 1 and norm(s.targets[0]) in names:
+            env[norm(s.targets[0])] = _sym_eval(s.value, env)
+        elif isinstance(s, ast.If) and any(isinstance(x, ast.Assign) and norm(x.targets[0]) in names
+                                           for b in s.body + s.orelse for x in ast.walk(b)):
+            _sym_exec(s.body if _sym_test(s.test, env) else s.orelse, env, names)
+
+
+def _buffersize_resolution(ctx, rep):
+    """The number of rows sorted in memory at a time is the caller's
+    buffersize, or petl.config.sort_buffersize when that is None, and one and
+    the same quantity bounds every chunk read and decides `the source is
+    exhausted`."""
+    from ..absint import parent_map
+    init = ctx.project.need_fn('petl.transform.sorts:SortView.__init__')
+    nc = ctx.project.need_fn('petl.transform.sorts:SortView._iternocache')
+    # (a) who consults the global default
     users = []
     for fn in ctx.functions(['petl'], controls=[CONTROL]):
+        pm = None
         for node in own_nodes(fn.node):
             if isinstance(node, ast.Attribute) and node.attr == 'sort_buffersize':
                 users.append((fn, node))
-    anchor = [u for u in users if u[0].fq == 'petl.transform.sorts:SortView.__init__']
-    if not anchor:
-        raise AnalysisError('anchor vanished: SortView.__init__ no longer reads config.sort_buffersize')
+    in_sortview = [u for u in users if u[0].cls is not None and u[0].cls is init.cls]
     for fn, node in users:
-        if fn.fq == 'petl.transform.sorts:SortView.__init__':
-            rep.held('R11.2', fn, norm(node), 'the single place where None becomes the global default', node)
+        if fn.cls is not None and fn.cls is init.cls:
+            rep.held('R11.2', fn, norm(node), 'SortView turns None into the global default', node)
+        elif _resolution_idiom(parent_map(fn.node), node):
+            rep.held('R11.2', fn, norm(node), 'replaces a None buffersize by the global default, nothing else', node)
         else:
             rep.violated('R11.2', fn, norm(node),
-                         'config.sort_buffersize consulted outside SortView.__init__: the global default is '
-                         'interpreted on the way to the sort', node)
-    # in SortView.__init__: self.buffersize is config value iff the argument is None
-    sv = ctx.project.need_fn('petl.transform.sorts:SortView.__init__')
-    try:
-        atoms, rows = dtable(sv.node.body)
-    except Unsupported as e:
-        rep.undecided('R11.2', sv, 'buffersize resolution', str(e), sv.node)
-        rows = []
-    for val, oc in rows:
-        assigned = [s for s in oc.effects if isinstance(s, ast.Assign) and
-                    any(norm(t) == 'self.buffersize' for t in s.targets)]
-        if not assigned:
-            rep.violated('R11.2', sv, 'self.buffersize', 'self.buffersize is not set when %s' % val, sv.node)
-            continue
-        v = norm(assigned[-1].value)
-        isnone = val.get('buffersize is None')
-        if isnone is None:
-            rep.undecided('R11.2', sv, 'buffersize resolution', 'no test `buffersize is None` found', sv.node)
-            break
-        want = 'config.sort_buffersize' if isnone else 'buffersize'
-        if v == want:
-            rep.held('R11.2', sv, 'self.buffersize when buffersize is%s None' % ('' if isnone else ' not'), v, sv.node)
+                         'config.sort_buffersize consulted outside SortView for something other than replacing a None '
+                         'buffersize: the global default is interpreted on the way to the sort', node)
+    # (b) one quantity for chunk reads and the exhaustion test
+    roles = []
+    for node in own_nodes(nc.node):
+        if isinstance(node, ast.Call) and norm(node.func).endswith('islice') and len(node.args) >= 2:
+            stop = node.args[1] if len(node.args) == 2 else node.args[2]
+            roles.append(('chunk read', stop, node))
+    for node in own_nodes(nc.node):
+        if isinstance(node, (ast.If, ast.IfExp, ast.While)):
+            cmps = [c for c in ast.walk(node.test) if isinstance(c, ast.Compare) and isinstance(c.left, ast.Call)
+                    and norm(c.left.func) == 'len' and len(c.comparators) == 1]
+            if not cmps:
+                continue
+            for c in cmps:
+                roles.append(('exhaustion test', c.comparators[0], c))
+            for c in ast.walk(node.test):
+                nt = _is_none_test(c)
+                if nt is not None:
+                    roles.append(('unbounded test', nt[0], c))
+    reads = [r for r in roles if r[0] == 'chunk read']
+    if not reads or not any(r[0] == 'exhaustion test' for r in roles):
+        raise AnalysisError('anchor vanished: SortView._iternocache has no islice chunk read / len(rows) exhaustion test')
+    exprs = sorted({norm(r[1]) for r in roles})
+    ref = norm(reads[0][1])
+    for role, e, node in roles:
+        if norm(e) == ref:
+            rep.held('R11.2', nc, '%s: %s' % (role, norm(node)), 'bounded by `%s`' % ref, node)
         else:
-            rep.violated('R11.2', sv, 'self.buffersize when buffersize is%s None' % ('' if isnone else ' not'),
-                         'self.buffersize = %s, expected %s' % (v, want), assigned[-1])
-    ctx.floor('default_sites', n, 150)
+            rep.violated('R11.2', nc, '%s: %s' % (role, norm(node)),
+                         'the %s uses `%s` but chunks are read with `%s`: when the two differ (buffersize=None and the '
+                         'global default) a source larger than one chunk is taken to be exhausted after the first chunk '
+                         'and the remaining rows are lost, or never-ending chunks are written'
+                         % (role, norm(e), ref), node)
+    # (c) that quantity is the argument, or the global default when the argument is None
+    for scen, arg in (('buffersize=None', 'NONE'), ('buffersize=n', 'USER')):
+        try:
+            env = {'buffersize': arg}
+            _sym_exec(init.node.body, env, {'self.buffersize', 'buffersize'})
+            if 'self.buffersize' not in env:
+                raise _Sym('self.buffersize is not set')
+            env2 = {'self.buffersize': env['self.buffersize']}
+            names = {ref} if '.' not in ref else set()
+            _sym_exec(nc.node.body, env2, names)
+            got = _sym_eval(reads[0][1], env2)
+        except _Sym as e:
+            rep.undecided('R11.2', nc, 'chunk size when %s' % scen, str(e), reads[0][2])
+            continue
+        want = 'CONFIG' if arg == 'NONE' else 'USER'
+        if got == want:
+            rep.held('R11.2', nc, 'chunk size when %s' % scen, got, reads[0][2])
+        else:
+            rep.violated('R11.2', nc, 'chunk size when %s' % scen,
+                         'chunks are read with `%s`, which is %s here; expected %s' % (
+                             ref, {'NONE': 'None (unbounded: the whole source is sorted in memory)', 'CONFIG': 'the global default',
+                                   'USER': 'the caller\'s value'}[got],
+                             'petl.config.sort_buffersize' if want == 'CONFIG' else 'the caller\'s buffersize'), reads[0][2])
 
 
 # ----------------------------------------------------------------------- R11.3
@@ -341,10 +457,79 @@ def _ctor_presorted(ctx, rep, ti, init):
         elif others_false:
             rep.violated('R11.3', init, 'presorted=False',
                          'no sort is applied although presorted is false (valuation %s)' % val, init.node)
+    _same_modulo_sort(ctx, rep, init, rows)
     if sorted_when_false:
         rep.held('R11.3', init, 'presorted ladder', 'sorts exactly when presorted is false', init.node)
     elif not any(True for _ in rows):
         rep.undecided('R11.3', init, 'presorted ladder', 'no valuation', init.node)
+
+
+class _Subst(ast.NodeTransformer):
+    def __init__(self, env):
+        self.env = env
+
+    def generic_visit(self, node):
+        if isinstance(node, (ast.Name, ast.Attribute)) and isinstance(getattr(node, 'ctx', None), ast.Load):
+            k = norm(node)
+            if k in self.env:
+                return self.env[k]
+        return super().generic_visit(node)
+
+
+def _final_attrs(effects):
+    """self.<attr> -> final expression (earlier assignments substituted) for one valuation"""
+    import copy
+    env = {}
+    for s in effects:
+        if isinstance(s, ast.Assign) and len(s.targets) == 1 and isinstance(s.targets[0], (ast.Name, ast.Attribute)):
+            val = _Subst(env).visit(copy.deepcopy(s.value))
+            env[norm(s.targets[0])] = val
+    return {k: v for k, v in env.items() if k.startswith('self.')}
+
+
+def _strip_sort(ctx, init, e):
+    while isinstance(e, ast.Call) and e.args and any(g.fq in SORT_FQ for g, b in _callee_fns(ctx, init, e)):
+        e = e.args[0]
+    if isinstance(e, (ast.ListComp, ast.GeneratorExp)) and len(e.generators) == 1 and not e.generators[0].ifs:
+        # [sort(t, ...) for t in tables] is `tables` up to the sort
+        g = e.generators[0]
+        inner = _strip_sort(ctx, init, e.elt)
+        if inner is not e.elt and norm(inner) == norm(g.target):
+            return g.iter
+    return e
+
+
+def _same_modulo_sort(ctx, rep, init, rows):
+    """presorted may add or skip a sort() around an input and nothing else:
+    under valuations that differ only in `presorted`, every attribute the
+    constructor stores is the same expression once sort(...) wrappers are
+    removed."""
+    by = {}
+    for val, oc in rows:
+        rest = tuple(sorted((k, v) for k, v in val.items() if k != 'presorted'))
+        by.setdefault(rest, {})[bool(val['presorted'])] = oc
+    for rest, pair in sorted(by.items()):
+        if True not in pair or False not in pair:
+            continue
+        a = _final_attrs(pair[True].effects)
+        b = _final_attrs(pair[False].effects)
+        for attr in sorted(set(a) | set(b)):
+            ea = a.get(attr)
+            eb = b.get(attr)
+            construct = '%s under presorted=True/False%s' % (attr, (' (%s)' % ', '.join('%s=%s' % kv for kv in rest)) if rest else '')
+            if ea is None or eb is None:
+                rep.violated('R11.3', init, construct,
+                             '%s is stored only when presorted is %s' % (attr, ea is not None), init.node)
+                continue
+            ta = norm(_strip_sort(ctx, init, ea))
+            tb = norm(_strip_sort(ctx, init, eb))
+            if ta == tb:
+                rep.held('R11.3', init, construct, 'both are `%s` up to the sort' % ta[:60], init.node)
+            else:
+                rep.violated('R11.3', init, construct,
+                             'apart from the sort the two branches differ: `%s` when presorted, `%s` otherwise: '
+                             'presorted=True then changes more than the execution strategy (e.g. short rows are no '
+                             'longer squared up, a projection is skipped)' % (ta[:80], tb[:80]), init.node)
 
 
 def _literal_presorted(ctx, rep, fn, node, g, bound, targs, construct):
